@@ -769,10 +769,10 @@ def required_probes(prop, tier):
         'C08': ['lookup_present', 'lookup_absent', 'lookup_while_stale', 'lookup_merged', 'open_a'],
         'C09': ['merge_base', 'merge_assoc', 'merge_pattern', 'merge_seam_read', 'open_merged',
                 'open_merged_with_assoc', 'lookup_merged', 'append_merged_refused'],
-        'C10': ['reject_required_none', 'reject_extra_fieldset', 'reject_missing_fieldset',
-                'reject_id_on_unidentified', 'reject_noid_on_identified', 'merge_sweeps', 'mfault_error',
-                'mfault_crash', 'mrefuse_mixed_identification', 'mrefuse_differing_fieldsets',
-                'mrefuse_existing_output', 'mrefuse_missing_input'],
+        # low-rate kinds are required as a family (prefix*), so that an unlucky seed cannot turn
+        # a healthy batch into a harness error
+        'C10': ['reject_required_none', 'reject_extra_fieldset', 'reject_missing_fieldset', 'reject_id_*',
+                'reject_noid_*', 'merge_sweeps', 'mfault_error', 'mfault_crash', 'mrefuse_*'],
     }[prop]
 
 
